@@ -6,4 +6,6 @@ func verifGate(name string) {}
 
 func verifGateStop(name, id string, stop <-chan struct{}) {}
 
+func verifLoopGate(name, id string, stop <-chan struct{}) {}
+
 func verifTrace(ev string, fields ...interface{}) {}
